@@ -76,7 +76,10 @@ def reference_weights(coords, boundary):
 def gen_layout(rng, j):
     n_in = int(rng.integers(4, 12))
     kind = j % 4
-    if kind == 0:
+    if j % 5 == 4:
+        w_, h_ = float(rng.uniform(25, 60)), float(rng.uniform(20, 40))
+        boundary = np.array([[0, 0], [w_, 0], [w_, h_], [0, h_]])                         # a small rectangular site, corners listed SW, SE, NE, NW (an open ring)
+    elif kind == 0:
         boundary = rng.uniform(0, 100, size=(int(rng.integers(4, 9)), 2))
     elif kind == 1:
         boundary = np.array([[0, 0], [300, 0], [300, 20], [0, 20.]])                      # elongated site
@@ -113,6 +116,10 @@ def voronoi_clause(cl, rng, n, replay):
         variants = [("as given", coords, boundary)]
         shift = rng.uniform(-1, 1, 2) * float(rng.choice([0, 1e2, 1e4])) * np.ptp(boundary)
         variants.append(("translated", coords + shift, boundary + shift))
+        if j % 5 == 4:
+            # projected (UTM-like) coordinates of a small site: easting ~5e5, northing ~4.5e6 - corners tens of metres apart are "close" only relative to these
+            utm = np.array([5.0e5, 4.5e6]) + rng.uniform(-1e4, 1e4, 2)
+            variants.append(("translated to projected coordinates", coords + utm, boundary + utm))
         k = float(rng.choice([1e-3, 7.0, 1e3]))
         variants.append(("scaled", coords * k, boundary * k))
         perm = rng.permutation(len(coords))
